@@ -289,3 +289,48 @@ pub fn gen_fragment_trees(rng: &mut Rng, n: usize) -> Vec<ClassFile> {
 		c
 	}).collect()
 }
+
+/// classes whose names are proper prefixes of one another (`a`, `ab`, `abc`, `a/b`, `a/bc`) with fields and methods whose names
+/// complete each other, so that owner + name (+ descriptor) written one after the other is the same string for different members
+/// (a+bc = ab+c, a+bcd = ab+cd = abc+d, a/b+cd = a/bc+d; name / descriptor boundary: xL + Lfoo; = x + LLfoo;), and two classes
+/// that refer to all of them, one in each order
+pub fn gen_prefix_trees(rng: &mut Rng) -> Vec<ClassFile> {
+	let decls: [(&str, &[&str]); 5] = [("a", &["bc", "bcd", "xL", "x"]), ("ab", &["c", "cd"]), ("abc", &["d"]), ("a/b", &["cd", "c"]), ("a/bc", &["d"])];
+	let fd = |owner: &str, n: &str| -> String { if owner == "a" && n == "xL" { "Lfoo;".to_owned() } else if owner == "a" && n == "x" { "LLfoo;".to_owned() } else { "I".to_owned() } };
+	let mut out = vec![];
+	let mut frefs: Vec<FieldRef> = vec![];
+	let mut mrefs: Vec<MethodRef> = vec![];
+	for (owner, names) in decls.iter() {
+		let mut access = ClassAccess::default(); access.is_public = true; access.is_super = true;
+		let mut c = ClassFile::new(Version::V1_8, access, obj(owner), Some(obj("java/lang/Object")), vec![]);
+		for n in names.iter() {
+			let d = fd(owner, n);
+			c.fields.push(Field::new(FieldAccess::from(0x0009u16), fname(n), fdesc(&d)));
+			frefs.push(FieldRef { class: obj(owner), name: fname(n), desc: fdesc(&d) });
+			if d == "I" {
+				let mut m = Method::new(MethodAccess::from(0x0009u16), mname(n), mdesc("()V"));
+				let mut code = Code::default(); code.max_stack = Some(0); code.max_locals = Some(0);
+				code.instructions.push(InstructionListEntry { label: None, frame: None, instruction: Instruction::Return });
+				m.code = Some(code);
+				c.methods.push(m);
+				mrefs.push(MethodRef { class: cls(owner), name: mname(n), desc: mdesc("()V") });
+			}
+		}
+		out.push(c);
+	}
+	for (k, name) in ["u/User1", "u/User2"].iter().enumerate() {
+		let mut access = ClassAccess::default(); access.is_public = true; access.is_super = true;
+		let mut c = ClassFile::new(Version::V1_8, access, obj(name), Some(obj("java/lang/Object")), vec![]);
+		let mut m = Method::new(MethodAccess::from(0x0009u16), mname("run"), mdesc("()V"));
+		let mut code = Code::default(); code.max_stack = Some(2); code.max_locals = Some(0);
+		let (mut fr, mut mr) = (frefs.clone(), mrefs.clone());
+		if k == 1 { fr.reverse(); mr.reverse(); } else if rng.chance(1, 2) { rng.shuffle(&mut fr); }
+		for r in fr { code.instructions.push(InstructionListEntry { label: None, frame: None, instruction: Instruction::GetStatic(r) }); code.instructions.push(InstructionListEntry { label: None, frame: None, instruction: Instruction::Pop }); }
+		for r in mr { code.instructions.push(InstructionListEntry { label: None, frame: None, instruction: Instruction::InvokeStatic(r, false) }); }
+		code.instructions.push(InstructionListEntry { label: None, frame: None, instruction: Instruction::Return });
+		m.code = Some(code);
+		c.methods.push(m);
+		out.push(c);
+	}
+	out
+}
